@@ -448,6 +448,71 @@ fn parse_hex_opt(s: &str) -> Option<Option<Vec<u8>>> {
     }
 }
 
+/// secondary oracle: `git merge-file -p` (differences are expected and documented in gix-merge's
+/// tests; they are counted and sampled, not judged)
+fn compare_with_git(rep: &mut Report, scratch: &Scratch, c: &Case, mode: Mode) {
+    let r = real_merge(c, mode);
+    let Ok((res, out)) = r else { return };
+    std::fs::write(scratch.join("ours"), &c.ours).unwrap();
+    std::fs::write(scratch.join("base"), &c.base).unwrap();
+    std::fs::write(scratch.join("theirs"), &c.theirs).unwrap();
+    let mut args: Vec<String> = vec!["merge-file".into(), "-p".into()];
+    match mode {
+        Mode::Keep(st, n) => {
+            match st {
+                ConflictStyle::Merge => {}
+                ConflictStyle::Diff3 => args.push("--diff3".into()),
+                ConflictStyle::ZealousDiff3 => args.push("--zdiff3".into()),
+            }
+            args.push(format!("--marker-size={n}"));
+        }
+        Mode::Ours => args.push("--ours".into()),
+        Mode::Theirs => args.push("--theirs".into()),
+        Mode::Union => args.push("--union".into()),
+    }
+    let lab = |l: &Option<Vec<u8>>, d: &str| match l {
+        Some(b) if !b.is_empty() && b.is_ascii() => String::from_utf8_lossy(b).to_string(),
+        _ => d.to_string(),
+    };
+    // labels: git always prints one; only compare when all three are plain non-empty strings
+    let comparable_labels = c.labels.iter().all(|l| matches!(l, Some(b) if !b.is_empty() && b.is_ascii()));
+    for (l, d) in [(&c.labels[1], "ours"), (&c.labels[0], "base"), (&c.labels[2], "theirs")] {
+        args.push("-L".into());
+        args.push(lab(l, d));
+    }
+    args.extend(["ours".to_string(), "base".to_string(), "theirs".to_string()]);
+    let argv: Vec<&str> = args.iter().map(|s| s.as_str()).collect();
+    let o = git(&scratch.path, &argv, None);
+    if o.code < 0 || o.code > 127 {
+        rep.bucket("git-merge-file:error");
+        return;
+    }
+    rep.git_checked(1);
+    let git_conflict = o.code != 0;
+    let same_res = git_conflict == (res == Resolution::Conflict);
+    let same_out = comparable_labels && o.stdout == out || (!git_conflict && res == Resolution::Complete && o.stdout == out);
+    let m = mode.token();
+    let m = m.split(':').next().unwrap();
+    if same_res && same_out {
+        rep.bucket(&format!("git-merge-file:{m}:same"));
+    } else if !comparable_labels && same_res && git_conflict {
+        rep.bucket(&format!("git-merge-file:{m}:same-resolution-labels-not-comparable"));
+    } else {
+        rep.bucket(&format!("git-merge-file:{m}:differs"));
+        rep.outside_domain(&format!(
+            "differs from git merge-file ({}): base={:?} ours={:?} theirs={:?}: gitoxide {:?} {:?}, git {} {:?}",
+            mode.token(),
+            c.base.as_bstr(),
+            c.ours.as_bstr(),
+            c.theirs.as_bstr(),
+            res,
+            out.as_bstr(),
+            if git_conflict { "Conflict" } else { "Complete" },
+            o.stdout.as_bstr()
+        ));
+    }
+}
+
 fn main() {
     if let Err(msg) = catch(real_main) {
         eprintln!("harness panicked: {msg}");
@@ -490,9 +555,24 @@ fn real_main() {
             run_case(&mut rep, &c, *m);
         }
     }
-    let n = args.budget(3000, 60_000);
-    for _ in 0..n {
+    let n = args.budget(3000, 40_000);
+    let n_git = args.budget(120, 500);
+    let scratch = Scratch::new("c45");
+    for i in 0..n {
         let c = gen_case(&mut r);
+        if i < n_git {
+            let m = *r.pick(&[
+                Mode::Keep(ConflictStyle::Merge, 7),
+                Mode::Keep(ConflictStyle::Merge, 7),
+                Mode::Keep(ConflictStyle::Diff3, 7),
+                Mode::Keep(ConflictStyle::ZealousDiff3, 7),
+                Mode::Keep(ConflictStyle::Merge, 3),
+                Mode::Ours,
+                Mode::Theirs,
+                Mode::Union,
+            ]);
+            compare_with_git(&mut rep, &scratch, &c, m);
+        }
         let (ha, hb) = real_hunks(&c.base, &c.ours, &c.theirs);
         check_contract(&mut rep, "ours", &c.base, &c.ours, &ha);
         check_contract(&mut rep, "theirs", &c.base, &c.theirs, &hb);
